@@ -223,18 +223,27 @@ Proof.
 Qed.
 
 (* no injected fault and the callee is (back) in the scratch directory: copy-back cannot fail *)
+Definition no_more_faults (s : state) : Prop := Forall (fun b => b = false) (tape s).
+
 Lemma do_copy_back_succeeds cands src here tmp : forall s,
-  src_dir src s = tmp -> tape s = [] -> (forall n, In n cands -> In (tmp ++ [n]) (files s)) ->
+  src_dir src s = tmp -> no_more_faults s -> (forall n, In n cands -> In (tmp ++ [n]) (files s)) ->
   exists s', do_copy_back cands src here s = (Ok, s').
 Proof.
+  unfold no_more_faults.
   induction cands as [|n r IH]; intros s Hc Ht Hin; cbn [do_copy_back].
   - eexists; reflexivity.
-  - rewrite pop_fault_tape, Ht.
-    assert (M : mem_path (src_dir src s ++ [n]) (files s) = true) by (apply mem_path_In; rewrite Hc; apply Hin; left; reflexivity).
-    rewrite M. cbn [negb]. apply IH.
-    + destruct src; exact Hc.
-    + exact Ht.
-    + intros m Hm. cbn. apply In_add_path. right. apply Hin. right; exact Hm.
+  - assert (M : mem_path (src_dir src s ++ [n]) (files s) = true) by (apply mem_path_In; rewrite Hc; apply Hin; left; reflexivity).
+    rewrite pop_fault_tape. destruct (tape s) as [|b t] eqn:Et.
+    + rewrite M. cbn [negb]. apply IH.
+      * destruct src; exact Hc.
+      * cbn. rewrite Et. constructor.
+      * intros m Hm. cbn. apply In_add_path. right. apply Hin. right; exact Hm.
+    + apply Forall_cons_iff in Ht as [Hb Htl]. subst b.
+      assert (M' : mem_path (src_dir src (set_tape s t) ++ [n]) (files (set_tape s t)) = true) by (destruct src; exact M).
+      rewrite M'. cbn [negb]. apply IH.
+      * destruct src; exact Hc.
+      * cbn. exact Htl.
+      * intros m Hm. cbn. apply In_add_path. right. apply Hin. right; exact Hm.
 Qed.
 
 Lemma In_kept_candidates kept tmp fs n :
@@ -298,7 +307,7 @@ Ltac frames :=
       generalize dependent H; intro
   end.
 
-(* ---- work_in (utils.py:224-255) ---- *)
+(* ---- work_in (utils.py:225-256) ---- *)
 Lemma work_in_cwd ext c : restores_cwd (wrap (WWorkIn ext) c).
 Proof.
   intros s. unfold work_in_term. run_term; try reflexivity.
@@ -313,7 +322,7 @@ Ltac pf := repeat match goal with H : pop_fault _ = _ |- _ =>
 (* work_in: the only thing the finally block can remove is dir_path, and only when it is empty *)
 Lemma work_in_only_empty ext c s :
   let d := cwd s ++ [ext] in let r := wrap (WWorkIn ext) c s in
-  (fst r = Raise (EFault FMkdir) /\ dirs (snd r) = dirs s /\ files (snd r) = files s) \/
+  ((fst r = Raise (EFault FMkdir) \/ fst r = Raise EExists) /\ dirs (snd r) = dirs s /\ files (snd r) = files s) \/
   (exists s0 s1, cwd s0 = d /\ In d (dirs s0) /\ incl (dirs s0) (d :: dirs s) /\ c s0 = (fst r, s1) /\
      files (snd r) = files s1 /\
      dirs (snd r) = if is_empty_dir s1 d then remove_path d (dirs s1) else dirs s1).
@@ -325,13 +334,10 @@ Proof.
                     | pf; match goal with H : dirs ?x = _ |- context [dirs ?x] => rewrite H end; apply incl_refl]|];
             rewrite ?is_empty_dir_set_cwd in *;
             match goal with H : is_empty_dir _ _ = _ |- _ => rewrite H end; split; reflexivity).
-  - left. pf. intuition congruence.
-  - exfalso. pf.
-    match goal with H1 : mem_path ?d (dirs ?a) = false, H2 : mem_path ?d (dirs ?b) = true, E : dirs ?b = dirs ?a |- _ =>
-      rewrite E in H2; congruence end.
+  all: left; pf; intuition congruence.
 Qed.
 
-(* ---- work_in_tmp_dir (utils.py:258-330) ---- *)
+(* ---- work_in_tmp_dir (utils.py:259-333) ---- *)
 Lemma tmpdir_cwd fns kept ll c : restores_cwd (wrap (WTmpDir fns kept ll) c).
 Proof.
   intros s. unfold work_in_tmp_dir_term. run_term; try reflexivity.
@@ -375,7 +381,7 @@ Qed.
    WHEREVER it returns from: either the call returns normally, or it failed before the wrapped function
    was reached (its result does not depend on the wrapped function at all) *)
 Lemma tmpdir_succeeds_wherever fns kept ll c s :
-  (forall s0, fst (c s0) = Ok /\ tape (snd (c s0)) = []) ->
+  (forall s0, fst (c s0) = Ok /\ no_more_faults (snd (c s0))) ->
   let r := wrap (WTmpDir fns kept ll) c s in
   fst r = Ok \/ (forall c', wrap (WTmpDir fns kept ll) c' s = r).
 Proof.
@@ -394,7 +400,7 @@ Proof.
          destruct E as [s' Es]; pose proof (eq_trans (eq_sym Hb) Es) as X; inversion X; reflexivity end.
 Qed.
 
-(* ---- run_in_tmp_environment (utils.py:601-642) ---- *)
+(* ---- run_in_tmp_environment (utils.py:604-645) ---- *)
 Lemma env_restored vars c s k : In k (map fst vars) ->
   env_get k (env (snd (wrap (WEnv vars) c s))) = env_get k (env s).
 Proof.
@@ -420,7 +426,7 @@ Proof.
   destruct o; cbn; repeat split; apply B; exact Hk.
 Qed.
 
-(* ---- temporary_config (utils.py:34-66) ---- *)
+(* ---- temporary_config (utils.py:35-67) ---- *)
 Lemma config_restored c s : cfg_kept (config s) (config (snd (wrap WConfig c s))).
 Proof.
   unfold wrap, run, term_of, temporary_config_term. cbn.
@@ -435,7 +441,7 @@ Proof.
   destruct (c s) as [o s1]. exists s1. destruct o; cbn; (split; [reflexivity|apply cfg_update_other; exact H]).
 Qed.
 
-(* ---- check_sufficient_memory (utils.py:121-143) ---- *)
+(* ---- check_sufficient_memory (utils.py:122-144) ---- *)
 Lemma mem_check_fails c s t : tape s = true :: t -> wrap WMem c s = (Raise (EFault FMem), set_tape s t).
 Proof.
   intros H. unfold wrap, run, term_of, check_sufficient_memory_term. cbn. rewrite pop_fault_tape, H. reflexivity.
@@ -610,9 +616,59 @@ Proof.
   intros [H1 [H2 H3]]. split; [apply stack_keeps_cwd; exact H1|]. split; [|apply stack_keeps_cfg; exact H3].
   intros s k. apply (stack_keeps_env_at k ws c (fun s' => H2 s' k)).
 Qed.
+(* ------------------------------------------------------------------ transparent outer layers *)
+(* s0 is s as far as directories are concerned *)
+Definition same_fs_inputs (s0 s : state) : Prop :=
+  cwd s0 = cwd s /\ dirs s0 = dirs s /\ files s0 = files s /\ config s0 = config s /\
+  tmproot s0 = tmproot s /\ names s0 = names s /\ tape s0 = tape s.
+
+Lemma transparent_prefix ws c : forallb transparent ws = true -> forall s,
+  exists s0 sf, run_stack ws c s = (fst (c s0), sf) /\ same_fs_inputs s0 s /\
+    cwd sf = cwd (snd (c s0)) /\ dirs sf = dirs (snd (c s0)) /\ files sf = files (snd (c s0)).
+Proof.
+  unfold same_fs_inputs.
+  induction ws as [|w r IH]; intros T s; cbn [run_stack].
+  - exists s, (snd (c s)). split; [destruct (c s); reflexivity|]. repeat split; reflexivity.
+  - cbn in T. apply andb_true_iff in T as [Tw Tr]. destruct w as [ext|fns kept ll|vars| |]; try discriminate.
+    + destruct (wenv_shape vars (run_stack r c) s) as [e' [E _]]. cbv zeta in E.
+      destruct (IH Tr (set_env s (do_set_env vars (env s)))) as [s0 [sf [R [[A1 [A2 [A3 [A4 [A5 [A6 A7]]]]]] [B1 [B2 B3]]]]]].
+      exists s0, (set_env sf e'). rewrite E, R. cbn. repeat split; assumption.
+    + rewrite wcfg_shape. destruct (IH Tr s) as [s0 [sf [R [A [B1 [B2 B3]]]]]].
+      exists s0, (set_config sf (cfg_update (config sf) (config s))). rewrite R. cbn. repeat split; try assumption; apply A.
+Qed.
+
+Lemma tmp_path_of_same ll s0 s : same_fs_inputs s0 s -> tmp_path_of ll s0 = tmp_path_of ll s.
+Proof. unfold same_fs_inputs, tmp_path_of. intros [_ [_ [_ [C [T [N _]]]]]]. rewrite C, T, N. reflexivity. Qed.
+
+(* scratch directory gone / cwd restored / kept files copied, seen through transparent outer layers *)
+Lemma through_transparent outer fns kept ll inner c s :
+  forallb transparent outer = true ->
+  let r := run_stack (outer ++ WTmpDir fns kept ll :: inner) c s in
+  let tmp := tmp_path_of ll s in
+  cwd (snd r) = cwd s /\
+  ((failed_before_mkdtemp (fst r) /\ dirs (snd r) = dirs s /\ files (snd r) = files s) \/
+   (forall p, In p (dirs (snd r)) \/ In p (files (snd r)) -> prefixb tmp p = false)) /\
+  (fst r = Ok -> exists s0 s1, run_stack inner c s0 = (Ok, s1) /\ cwd s0 = tmp /\
+     forall n, In (tmp ++ [n]) (files s1) -> kept_name kept n = true ->
+       prefixb tmp (cwd s ++ [n]) = false -> In (cwd s ++ [n]) (files (snd r))).
+Proof.
+  intros T. cbv zeta.
+  assert (RS : forall ws1 ws2 c', run_stack (ws1 ++ ws2) c' = run_stack ws1 (run_stack ws2 c')).
+  { induction ws1 as [|w r IH]; intros; cbn; [reflexivity|rewrite IH; reflexivity]. }
+  rewrite RS. cbn [run_stack].
+  destruct (transparent_prefix outer (wrap (WTmpDir fns kept ll) (run_stack inner c)) T s)
+    as [s0 [sf [R [S0 [B1 [B2 B3]]]]]].
+  rewrite R. cbn [fst snd]. rewrite B1, B2, B3.
+  pose proof S0 as S0'. destruct S0' as [C0 [D0 [F0 _]]].
+  rewrite <- (tmp_path_of_same ll s0 s S0), <- C0, <- D0, <- F0.
+  split; [apply tmpdir_cwd|]. split; [apply tmpdir_removed|].
+  intros HOk. destruct (tmpdir_kept_files fns kept ll (run_stack inner c) s0 HOk) as [a [b [E1 [E2 [_ E3]]]]].
+  exists a, b. split; [exact E1|]. split; [exact E2|exact E3].
+Qed.
+
 (* ------------------------------------------------------------------ per-program execute closures *)
 Definition program_ok (p : program) : bool :=
-  outermost_is_tmpdir p && externals_guarded p && raw_setenv_free p && has_external p.
+  stack_ok p && externals_guarded p && raw_setenv_free p && has_external p.
 
 (* a finite sweep over the GENERATED table: every execute closure has work_in_tmp_dir outermost, runs
    the external program only through a memory-checked entry point, and never assigns os.environ itself *)
@@ -620,7 +676,7 @@ Lemma programs_shape : forallb program_ok programs = true.
 Proof. vm_compute. reflexivity. Qed.
 
 Lemma program_in_shape p : In p programs ->
-  outermost_is_tmpdir p = true /\ externals_guarded p = true /\ raw_setenv_free p = true /\ has_external p = true.
+  stack_ok p = true /\ externals_guarded p = true /\ raw_setenv_free p = true /\ has_external p = true.
 Proof.
   intros H. pose proof programs_shape as S. rewrite forallb_forall in S. specialize (S p H).
   unfold program_ok in S. repeat (apply andb_true_iff in S as [S ?]). tauto.
@@ -671,11 +727,29 @@ Proof.
   destruct o; cbn; [eapply cfg_kept_trans; [exact E1|apply IH]|exact E1].
 Qed.
 
-Lemma run_program_tmpdir rt ext p : outermost_is_tmpdir p = true ->
-  exists fns kept ll c, run_program rt ext p = wrap (WTmpDir fns kept ll) c.
+Lemma split_stack_app st : forall pre k ll post, split_stack st = Some (pre, (k, ll), post) ->
+  st = pre ++ DTmpDir k ll :: post /\ forallb (fun d => match d with DEnv _ => true | _ => false end) pre = true.
 Proof.
-  unfold outermost_is_tmpdir, run_program. destruct (p_stack p) as [|[k ll|ks|] r]; try discriminate. intros _.
-  cbn. eexists _, _, _, _. reflexivity.
+  induction st as [|d r IH]; intros pre k ll post H; cbn in H; [discriminate|].
+  destruct d as [k' ll'|ks|]; [inversion H; subst; split; reflexivity| |discriminate].
+  destruct (split_stack r) as [[[pre' [k' ll']] post']|] eqn:E; [|discriminate]. inversion H; subst.
+  destruct (IH _ _ _ _ eq_refl) as [A B]. split; [cbn; rewrite A; reflexivity|cbn; exact B].
+Qed.
+
+(* the program as: transparent env layers, work_in_tmp_dir with the program's own kept list and use_ll_tmp, inner part *)
+Lemma run_program_shape rt ext p : stack_ok p = true ->
+  exists outer fns, forallb transparent outer = true /\
+    run_program rt ext p = run_stack (outer ++ WTmpDir fns (prog_kept rt p) (prog_ll p) :: []) (prog_inner rt ext p).
+Proof.
+  unfold stack_ok, run_program, prog_kept, prog_ll, prog_inner.
+  destruct (split_stack (p_stack p)) as [[[pre [k ll]] post]|] eqn:E; [|discriminate]. intros _.
+  destruct (split_stack_app _ _ _ _ _ E) as [A B]. rewrite A.
+  exists (map (wrapper_of_deco rt) pre), (r_fns rt). split.
+  - clear -B. induction pre as [|d r IH]; [reflexivity|]. cbn in *. destruct d; try discriminate. cbn. apply IH. exact B.
+  - rewrite map_app. cbn [map wrapper_of_deco].
+    assert (RS : forall ws1 ws2 c', run_stack (ws1 ++ ws2) c' = run_stack ws1 (run_stack ws2 c')).
+    { induction ws1 as [|w r IH]; intros; cbn; [reflexivity|rewrite IH; reflexivity]. }
+    rewrite !RS. cbn [run_stack]. destruct k; reflexivity.
 Qed.
 
 Lemma run_program_restores rt ext p : raw_setenv_free p = true -> restores ext -> restores (run_program rt ext p).
